@@ -535,7 +535,14 @@ impl<'a> WalReader<'a> {
                         continue; // Re-evaluate with new state
                     }
 
-                    let record = self.header.record(self.current_block_offset as u64);
+                    // A record that was being written when the process died is the end of the log.
+                    let used = self.header_used_bytes();
+                    let Some(record) = self
+                        .header
+                        .record_within(self.current_block_offset as u64, used)
+                    else {
+                        return Ok(None);
+                    };
                     self.current_block_offset += record.total_size();
                     return Ok(Some(record));
                 }
@@ -561,7 +568,11 @@ impl<'a> WalReader<'a> {
                         continue; // Re-evaluate with new state
                     }
 
-                    let record = self.block_queue[idx].record(self.current_block_offset as u64);
+                    let Some(record) =
+                        self.block_queue[idx].record_within(self.current_block_offset as u64, used)
+                    else {
+                        return Ok(None);
+                    };
                     self.current_block_offset += record.total_size();
                     return Ok(Some(record));
                 }
